@@ -45,111 +45,7 @@ pub fn format_record_key(key: &str) -> String {
 }
 
 pub fn expr_to_source(spanned_expr: &SpannedExpr) -> String {
-    match &spanned_expr.node {
-        Expr::Number(n) => {
-            if n.fract() == 0.0 && n.abs() < 1e15 {
-                format!("{:.0}", n)
-            } else {
-                n.to_string()
-            }
-        }
-        Expr::String(s) => format!("\"{}\"", s.replace("\\", "\\\\").replace("\"", "\\\"")),
-        Expr::Bool(b) => b.to_string(),
-        Expr::Null => "null".to_string(),
-        Expr::Identifier(name) => name.clone(),
-        Expr::InputReference(field) => format!("#{}", field),
-        Expr::BuiltIn(built_in) => built_in.name().to_string(),
-        Expr::List(items) => {
-            let items_str: Vec<String> = items.iter().map(|c| expr_to_source(&c.node)).collect();
-            format!("[{}]", items_str.join(", "))
-        }
-        Expr::Record(entries) => {
-            let entries_str: Vec<String> = entries
-                .iter()
-                .map(|c| record_entry_to_source(&c.node))
-                .collect();
-            format!("{{{}}}", entries_str.join(", "))
-        }
-        Expr::Lambda { args, body } => {
-            let args_str: Vec<String> = args.iter().map(lambda_arg_to_source).collect();
-            format!("({}) => {}", args_str.join(", "), expr_to_source(body))
-        }
-        Expr::Conditional {
-            condition,
-            then_expr,
-            else_expr,
-        } => format!(
-            "if {} then {} else {}",
-            expr_to_source(condition),
-            expr_to_source(then_expr),
-            expr_to_source(else_expr)
-        ),
-        Expr::DoBlock {
-            statements,
-            return_expr,
-        } => {
-            let mut result = "do {".to_string();
-            for stmt in statements {
-                // Leading comments
-                for comment in &stmt.leading {
-                    result.push_str(&format!("\n  {}", comment));
-                }
-                // Expression
-                result.push_str(&format!("\n  {}", expr_to_source(&stmt.node)));
-                // Trailing comment
-                if let Some(trailing) = &stmt.trailing {
-                    result.push_str(&format!("  {}", trailing));
-                }
-            }
-            // Return expression with leading comments
-            for comment in &return_expr.leading {
-                result.push_str(&format!("\n  {}", comment));
-            }
-            result.push_str(&format!(
-                "\n  return {}\n}}",
-                expr_to_source(&return_expr.node)
-            ));
-            result
-        }
-        Expr::Assignment { ident, value } => format!("{} = {}", ident, expr_to_source(value)),
-        Expr::Output { expr } => format!("output {}", expr_to_source(expr)),
-        Expr::Call { func, args } => {
-            let args_str: Vec<String> = args.iter().map(expr_to_source).collect();
-            let func_str = match &func.node {
-                // Wrap lambdas in parentheses when used in call position
-                Expr::Lambda { .. } => format!("({})", expr_to_source(func)),
-                _ => expr_to_source(func),
-            };
-            format!("{}({})", func_str, args_str.join(", "))
-        }
-        Expr::Access { expr, index } => {
-            format!("{}[{}]", expr_to_source(expr), expr_to_source(index))
-        }
-        Expr::DotAccess { expr, field } => format!("{}.{}", expr_to_source(expr), field),
-        Expr::BinaryOp { op, left, right } => {
-            let op_str = binary_op_to_source(op);
-            let left_str = if needs_parens_in_binop(op, left, true) {
-                format!("({})", expr_to_source(left))
-            } else {
-                expr_to_source(left)
-            };
-            let right_str = if needs_parens_in_binop(op, right, false) {
-                format!("({})", expr_to_source(right))
-            } else {
-                expr_to_source(right)
-            };
-            format!("{} {} {}", left_str, op_str, right_str)
-        }
-        Expr::UnaryOp { op, expr } => {
-            let op_str = unary_op_to_source(op);
-            format!("{}{}", op_str, expr_to_source(expr))
-        }
-        Expr::PostfixOp { op, expr } => {
-            let op_str = postfix_op_to_source(op);
-            format!("{}{}", expr_to_source(expr), op_str)
-        }
-        Expr::Spread(expr) => format!("...{}", expr_to_source(expr)),
-    }
+    expr_to_source_with_scope(spanned_expr, &IndexMap::new())
 }
 
 fn lambda_arg_to_source(arg: &LambdaArg) -> String {
@@ -157,25 +53,6 @@ fn lambda_arg_to_source(arg: &LambdaArg) -> String {
         LambdaArg::Required(name) => name.clone(),
         LambdaArg::Optional(name) => format!("{}?", name),
         LambdaArg::Rest(name) => format!("...{}", name),
-    }
-}
-
-fn record_entry_to_source(entry: &RecordEntry) -> String {
-    match &entry.key {
-        RecordKey::Static(key) => format!(
-            "{}: {}",
-            format_record_key(key),
-            expr_to_source(&entry.value)
-        ),
-        RecordKey::Dynamic(key_expr) => {
-            format!(
-                "[{}]: {}",
-                expr_to_source(key_expr),
-                expr_to_source(&entry.value)
-            )
-        }
-        RecordKey::Shorthand(name) => name.clone(),
-        RecordKey::Spread(expr) => expr_to_source(expr),
     }
 }
 
@@ -210,43 +87,162 @@ fn binary_op_to_source(op: &BinaryOp) -> &'static str {
     }
 }
 
+/// The syntactic position a sub-expression is printed in.
+#[derive(Debug, Clone, Copy, PartialEq)]
+pub enum Position {
+    /// left operand of a binary operator
+    BinaryLeft(BinaryOp),
+    /// right operand of a binary operator
+    BinaryRight(BinaryOp),
+    /// operand of a prefix operator (`-x`, `!x`)
+    Prefix,
+    /// what a postfix form applies to: `x!`, `x(...)`, `x[...]`, `x.field`
+    PostfixBase,
+    /// body of a lambda
+    LambdaBody,
+}
+
+/// Precedence level used for printing. `operator_info` files `^` and `??` under the same number,
+/// but the Pratt parser registers `??` after `^`, so it binds tighter.
+fn print_level(op: &BinaryOp) -> u8 {
+    match op {
+        BinaryOp::Coalesce => operator_info(op).0 + 1,
+        _ => operator_info(op).0,
+    }
+}
+
+/// Conditionals, lambdas, assignments and output declarations extend as far to the right as
+/// possible, so they swallow whatever operator follows them.
+fn is_open_ended(expr: &Expr) -> bool {
+    matches!(
+        expr,
+        Expr::Conditional { .. } | Expr::Lambda { .. } | Expr::Assignment { .. } | Expr::Output { .. }
+    )
+}
+
+/// What the printed form of an expression ends with, as far as a following operator is concerned.
+#[derive(PartialEq)]
+enum Tail {
+    /// nothing that could swallow a following operator
+    Closed,
+    /// a lambda body: swallows symbolic operators and `and` / `or`, but not `via` / `into` / `where`
+    LambdaBody,
+    /// a conditional's else-branch or an assignment's value: swallows every operator
+    Expression,
+}
+
+fn tail_of(expr: &SpannedExpr) -> Tail {
+    match &expr.node {
+        Expr::Conditional { .. } | Expr::Assignment { .. } | Expr::Output { .. } => Tail::Expression,
+        Expr::Lambda { body, .. } => {
+            if !needs_parens(body, Position::LambdaBody) && tail_of(body) == Tail::Expression {
+                Tail::Expression
+            } else {
+                Tail::LambdaBody
+            }
+        }
+        Expr::BinaryOp { op, right, .. } => {
+            if needs_parens(right, Position::BinaryRight(*op)) {
+                Tail::Closed
+            } else {
+                tail_of(right)
+            }
+        }
+        Expr::UnaryOp { expr: inner, .. } => {
+            if needs_parens(inner, Position::Prefix) {
+                Tail::Closed
+            } else {
+                tail_of(inner)
+            }
+        }
+        _ => Tail::Closed,
+    }
+}
+
+/// Would the printed form of `expr` swallow a following `next_op` (see `is_open_ended`)?
+fn swallows(expr: &SpannedExpr, next_op: &BinaryOp) -> bool {
+    match tail_of(expr) {
+        Tail::Closed => false,
+        Tail::Expression => true,
+        Tail::LambdaBody => !matches!(next_op, BinaryOp::Via | BinaryOp::Into | BinaryOp::Where),
+    }
+}
+
+/// Lambda bodies do not admit `via` / `into` / `where` unless parenthesised.
+fn has_bare_word_operator(expr: &SpannedExpr) -> bool {
+    match &expr.node {
+        Expr::BinaryOp { op, left, right } => {
+            matches!(op, BinaryOp::Via | BinaryOp::Into | BinaryOp::Where)
+                || (!needs_parens(left, Position::BinaryLeft(*op)) && has_bare_word_operator(left))
+                || (!needs_parens(right, Position::BinaryRight(*op))
+                    && has_bare_word_operator(right))
+        }
+        Expr::UnaryOp { expr: inner, .. } => {
+            !needs_parens(inner, Position::Prefix) && has_bare_word_operator(inner)
+        }
+        _ => false,
+    }
+}
+
+fn is_negative_number(expr: &Expr) -> bool {
+    matches!(expr, Expr::Number(n) if n.is_sign_negative() && !n.is_nan())
+}
+
+/// Check if an expression needs parentheses when printed in the given position, so that the
+/// printed text parses back to the same tree.
+pub fn needs_parens(expr: &SpannedExpr, position: Position) -> bool {
+    let node = &expr.node;
+    match position {
+        Position::BinaryLeft(parent_op) => match node {
+            Expr::BinaryOp { op: child_op, .. } => {
+                let (parent, child) = (print_level(&parent_op), print_level(child_op));
+                let (_, parent_assoc) = operator_info(&parent_op);
+                child < parent
+                    || (child == parent && parent_assoc == Assoc::Right)
+                    // `(a + x => x) * 2`: the lambda would swallow `* 2`
+                    || swallows(expr, &parent_op)
+            }
+            _ => swallows(expr, &parent_op),
+        },
+        Position::BinaryRight(parent_op) => match node {
+            Expr::BinaryOp { op: child_op, .. } => {
+                let (parent, child) = (print_level(&parent_op), print_level(child_op));
+                let (_, parent_assoc) = operator_info(&parent_op);
+                // Operators of one level group from the left (from the right for `^`), so the
+                // other operand needs parentheses to keep the tree
+                child < parent || (child == parent && parent_assoc == Assoc::Left)
+            }
+            // open-ended constructs are fine as the last operand: `l via x => x + 1`
+            Expr::Assignment { .. } | Expr::Output { .. } => true,
+            _ => false,
+        },
+        // prefix operators bind tighter than every binary operator
+        Position::Prefix => matches!(node, Expr::BinaryOp { .. }) || is_open_ended(node),
+        // postfix forms bind tighter than prefix operators: `(-x)!`, `(a + b)[0]`, `(x => x)(1)`
+        Position::PostfixBase => {
+            matches!(
+                node,
+                Expr::BinaryOp { .. } | Expr::UnaryOp { .. } | Expr::Spread(_)
+            ) || is_open_ended(node)
+                || is_negative_number(node)
+        }
+        Position::LambdaBody => {
+            matches!(node, Expr::Assignment { .. } | Expr::Output { .. })
+                || has_bare_word_operator(expr)
+        }
+    }
+}
+
 /// Check if a child expression needs parentheses when used in a binary operation
 pub fn needs_parens_in_binop(
     parent_op: &BinaryOp,
     child_expr: &SpannedExpr,
     is_left: bool,
 ) -> bool {
-    match &child_expr.node {
-        Expr::BinaryOp { op: child_op, .. } => {
-            let (parent_prec, parent_assoc) = operator_info(parent_op);
-            let (child_prec, _child_assoc) = operator_info(child_op);
-
-            // Need parentheses if child has lower precedence
-            if child_prec < parent_prec {
-                return true;
-            }
-
-            // For same precedence, need parentheses on right side for:
-            // - Right-associative operators (e.g., power)
-            // - Non-associative operators (subtraction, division)
-            if child_prec == parent_prec && !is_left {
-                match parent_assoc {
-                    Assoc::Right => return true,
-                    Assoc::Left => {
-                        // For left-associative operators, right side needs parens for non-associative ones
-                        if matches!(
-                            parent_op,
-                            BinaryOp::Subtract | BinaryOp::Divide | BinaryOp::Modulo
-                        ) {
-                            return true;
-                        }
-                    }
-                }
-            }
-
-            false
-        }
-        _ => false,
+    if is_left {
+        needs_parens(child_expr, Position::BinaryLeft(*parent_op))
+    } else {
+        needs_parens(child_expr, Position::BinaryRight(*parent_op))
     }
 }
 
@@ -261,6 +257,26 @@ fn unary_op_to_source(op: &UnaryOp) -> &'static str {
 fn postfix_op_to_source(op: &PostfixOp) -> &'static str {
     match op {
         PostfixOp::Factorial => "!",
+    }
+}
+
+/// Print a sub-expression, parenthesised when its position requires it. An identifier that is
+/// inlined from the scope is judged as the value it is replaced by.
+fn operand_to_source(
+    expr: &SpannedExpr,
+    position: Position,
+    scope: &IndexMap<String, SerializableValue>,
+) -> String {
+    let source = expr_to_source_with_scope(expr, scope);
+    let inlined_negative = matches!(
+        (&expr.node, position),
+        (Expr::Identifier(name), Position::PostfixBase)
+            if matches!(scope.get(name), Some(SerializableValue::Number(n)) if n.is_sign_negative() && !n.is_nan())
+    );
+    if needs_parens(expr, position) || inlined_negative {
+        format!("({})", source)
+    } else {
+        source
     }
 }
 
@@ -316,7 +332,7 @@ pub fn expr_to_source_with_scope(
             format!(
                 "({}) => {}",
                 args_str.join(", "),
-                expr_to_source_with_scope(body, &filtered_scope)
+                operand_to_source(body, Position::LambdaBody, &filtered_scope)
             )
         }
         Expr::Conditional {
@@ -362,29 +378,17 @@ pub fn expr_to_source_with_scope(
         }
         Expr::BinaryOp { op, left, right } => {
             let op_str = binary_op_to_source(op);
-            let left_str = if needs_parens_in_binop(op, left, true) {
-                format!("({})", expr_to_source_with_scope(left, scope))
-            } else {
-                expr_to_source_with_scope(left, scope)
-            };
-            let right_str = if needs_parens_in_binop(op, right, false) {
-                format!("({})", expr_to_source_with_scope(right, scope))
-            } else {
-                expr_to_source_with_scope(right, scope)
-            };
+            let left_str = operand_to_source(left, Position::BinaryLeft(*op), scope);
+            let right_str = operand_to_source(right, Position::BinaryRight(*op), scope);
             format!("{} {} {}", left_str, op_str, right_str)
         }
         Expr::UnaryOp { op, expr } => {
-            let op_str = match op {
-                UnaryOp::Negate => "-",
-                UnaryOp::Not => "!",
-                UnaryOp::Invert => "~",
-            };
-            format!("{}{}", op_str, expr_to_source_with_scope(expr, scope))
+            let op_str = unary_op_to_source(op);
+            format!("{}{}", op_str, operand_to_source(expr, Position::Prefix, scope))
         }
         Expr::PostfixOp { op, expr } => {
             let op_str = postfix_op_to_source(op);
-            format!("{}{}", expr_to_source_with_scope(expr, scope), op_str)
+            format!("{}{}", operand_to_source(expr, Position::PostfixBase, scope), op_str)
         }
         Expr::Spread(expr) => format!("...{}", expr_to_source_with_scope(expr, scope)),
         Expr::Assignment { ident, value } => {
@@ -398,24 +402,22 @@ pub fn expr_to_source_with_scope(
                 .iter()
                 .map(|e| expr_to_source_with_scope(e, scope))
                 .collect();
-            let func_str = match &func.node {
-                // Wrap lambdas in parentheses when used in call position
-                Expr::Lambda { .. } => {
-                    format!("({})", expr_to_source_with_scope(func, scope))
-                }
-                _ => expr_to_source_with_scope(func, scope),
-            };
+            let func_str = operand_to_source(func, Position::PostfixBase, scope);
             format!("{}({})", func_str, args_str.join(", "))
         }
         Expr::Access { expr, index } => {
             format!(
                 "{}[{}]",
-                expr_to_source_with_scope(expr, scope),
+                operand_to_source(expr, Position::PostfixBase, scope),
                 expr_to_source_with_scope(index, scope)
             )
         }
         Expr::DotAccess { expr, field } => {
-            format!("{}.{}", expr_to_source_with_scope(expr, scope), field)
+            format!(
+                "{}.{}",
+                operand_to_source(expr, Position::PostfixBase, scope),
+                field
+            )
         }
     }
 }
